@@ -27,7 +27,9 @@ RULE = ("classes built on the eligibility boundary of trusted deserialization: e
         "ignore_invalid_additional_properties in 3x2; mode construct: cls(**kw) vs from_trusted_data(None, **kw) / "
         "from_trusted_data(mapping) / trust_supplied_values; mode fast: FastSerializable twin class trees (12% of nested "
         "classes not fast), create_serializer with serialize_none x compact in 2x2, x.serialize() vs Serializer(twin); "
-        "every case builds fresh classes; distinct by case hash")
+        "for flag-free cases the serializer also comes to exist implicitly at first instantiation, or implicitly for a "
+        "SUBCLASS (fields split over a parent and a child class) after the parent was instantiated / got its own "
+        "serializer; JSON arrays of Set fields repeat elements; every case builds fresh classes; distinct by case hash")
 ASSUMPTIONS = [
     "fail-fast mode, no Versioned classes, no Constant fields, no class inheritance, no uniqueness features",
     "rename mappers are injective on the class's fields (key collisions are C07's subject); one mapper per class, no lists of mappers "
